@@ -44,7 +44,7 @@ PRE_INIT_ENDS = ('fin_before_init', 'rst_before_init', 'silent_before_init', 'ga
                  'unknown_pierce', 'truncated_init_fin', 'truncated_init_silent')
 OUT_FAIL_ENDS = ('refused', 'blackhole', 'reset_on_connect', 'cancel_connect', 'disconnect_connecting', 'bad_port')
 LIVE_ENDS = ('local_disconnect', 'local_disconnect_x2', 'local_disconnect_x3', 'remote_fin', 'remote_rst',
-             'rst_mid_frame', 'read_timeout', 'write_timeout', 'disconnect_during_burst', 'never')
+             'rst_mid_frame', 'read_timeout', 'write_timeout', 'disconnect_during_burst', 'never', 'twin_second_closes')
 
 
 # an idle file connection has no reader: nothing in the library looks at it until a transfer task
@@ -67,6 +67,8 @@ def make_episode(rng, i):
         ep['end'] = rng.choice(LIVE_ENDS)
     if ep['typ'] == 'F' and ep['end'] in F_SKIP:
         ep['end'] = rng.choice(('local_disconnect', 'local_disconnect_x2', 'never'))
+    if ep['end'] == 'twin_second_closes' and kind != 'out_direct':
+        ep['end'] = 'never'
     ep['cut'] = rng.randint(0, 40)
     return ep
 
@@ -81,6 +83,8 @@ def generate(rng, index, tier):
         'slow_listener': ({'state': rng.choice(('CONNECTING', 'CONNECTED', 'CLOSING', 'CLOSED')),
                            'delay': rng.choice([0.0, 0.001, 0.05, 1.0])} if rng.random() < 0.3 else None),
         'slow_message': rng.choice([0.001, 0.02, 0.3]) if rng.random() < 0.25 else None,
+        'final_disconnect': ({'hops': rng.randint(0, 12), 'at': rng.choice(('delivery', 'arrival'))}
+                             if rng.random() < 0.15 else None),
     }
 
 
@@ -97,8 +101,17 @@ def corpus(tier):
                 for end in LIVE_ENDS:
                     if typ == 'F' and end in F_SKIP:
                         continue
+                    if end == 'twin_second_closes' and kind != 'out_direct':
+                        continue
                     out.append({'seed': 1, 'net': net, 'mode': 'race',
                                 'episodes': [dict(base, kind=kind, obf=obf, typ=typ, end=end)]})
+    # Network.disconnect() k loop iterations after a relayed connect request was delivered
+    for k in range(0, 16):
+        out.append({'seed': 1, 'net': net, 'mode': 'race', 'final_disconnect': {'hops': k},
+                    'episodes': [dict(base, kind='incoming', obf=False, typ='P', end='never')]})
+    for k in range(0, 8):
+        out.append({'seed': 1, 'net': net, 'mode': 'race', 'final_disconnect': {'hops': k, 'at': 'arrival'},
+                    'episodes': [dict(base, kind='incoming', obf=False, typ='P', end='never')]})
     # frames buffered behind a slow delivery when the connection is closed locally / by the peer
     for typ in ('P', 'D'):
         for end in ('disconnect_during_burst', 'local_disconnect', 'local_disconnect_x2'):
@@ -125,6 +138,8 @@ def simplify(plan):
         yield dict(plan, slow_listener=None)
     if plan.get('slow_message'):
         yield dict(plan, slow_message=None)
+    if plan.get('final_disconnect'):
+        yield dict(plan, final_disconnect=None)
     for i, ep in enumerate(plan['episodes']):
         for key, val in (('frames', 0), ('obf', False), ('typ', 'P'), ('plus_iter', 0), ('at', 0.0), ('live_for', 0.5)):
             if ep.get(key) != val:
@@ -232,10 +247,24 @@ def _run(world: World, plan):
                 if ev is not None:
                     ev.set()
 
+    final = {'armed': False}
+
+    def hop_then_disconnect(n):
+        if n > 0:
+            loop.call_soon(hop_then_disconnect, n - 1)
+        else:
+            fired['network_disconnect_during_connect_back'] += 1
+            world.call(alice, 'net-disconnect', network.disconnect)
+
     def on_message_first(event):
         # first listener of the delivery (priority 0): a handler further down the chain may itself
         # close the connection while the same event is still being handed round
         conn = event.connection
+        if final['armed'] and isinstance(event.message, M.ConnectToPeer.Response) and event.message.username == 'pz' \
+                and plan['final_disconnect'].get('at') != 'arrival':
+            # Network.disconnect() is called this many loop iterations after the relayed request was delivered
+            final['armed'] = False
+            hop_then_disconnect(int(plan['final_disconnect'].get('hops', 0)))
         r = mon.get(id(conn))
         if r is not None and r['closed_at'] is not None and not r['is_server']:
             world.violate('C10.msg_after_closed', **facts_of(r), message=type(event.message).__qualname__)
@@ -274,6 +303,8 @@ def _run(world: World, plan):
     def connect_hook(attempt):
         if attempt['src'] != 'alice':
             return None
+        if attempt['dst'] == 'pz':
+            return ('slow', 3.0)
         ep = ep_by_peer.get(attempt['dst'])
         if ep is None:
             return None
@@ -293,12 +324,23 @@ def _run(world: World, plan):
     world.net.connect_hook = connect_hook
 
     links = {}
+    twin_links = {}
 
     async def serve_link(peer, ep, link, initialised_by_alice):
         """Peer side after the connection exists: read everything, send some frames, then end."""
+        nth = twin_links.setdefault(ep['peer'], [])
+        nth.append(link)
         links[ep['peer']] = link
         reader_task = peer.spawn(drain(link))
         end = ep['end']
+        if end == 'twin_second_closes':
+            # two connections of the same type to the same endpoint at once: the one made second is ended first
+            if len(nth) == 2:
+                await asyncio.sleep(ep['live_for'] + 0.5)
+                fired['remote_fin'] += 1
+                fired['second_of_two_equal_connections_closed'] += 1
+                link.close()
+            return
         for i in range(ep['frames']):
             if ep['frame_gap']:
                 await asyncio.sleep(ep['frame_gap'])
@@ -462,6 +504,9 @@ def _run(world: World, plan):
                     kwargs = {}
                 call = world.call(alice, f"cpc-{ep['peer']}", network.create_peer_connection, ep['peer'], ep['typ'], **kwargs)
                 calls[ep['peer']] = call
+                if ep['end'] == 'twin_second_closes' and kind == 'out_direct':
+                    await asyncio.sleep(0.3)
+                    world.call(alice, f"cpc2-{ep['peer']}", network.create_peer_connection, ep['peer'], ep['typ'], **kwargs)
                 if ep['end'] == 'disconnect_connecting':
                     await disconnect_connecting(ep, peer)
                 if ep['end'] == 'cancel_connect':
@@ -571,6 +616,23 @@ def _run(world: World, plan):
             if r['is_peer'] and r['closed_at'] is not None:
                 c = world.call(alice, 'send-after-closed', r['conn'].send_message, M.PeerUserInfoRequest.Request())
                 after_closed_calls.append((c, r, loop.time()))
+        if plan.get('final_disconnect'):
+            # the last thing that happens: a relayed connect request and Network.disconnect() around the same iteration
+            pz = world.add_peer('pz')
+            ip, port, obf = server.address_of('pz')
+            final['armed'] = True
+            if plan['final_disconnect'].get('at') == 'arrival':
+                # counted from the arrival of the bytes instead (the call is then made before the request is handled)
+                class ArrivalTap(Tap):
+                    def on_data(self, conn, direction, data):
+                        if final['armed'] and conn.dst.name == 'server' and conn.src.name == 'alice' and direction == 's2c' \
+                                and b'pz' in data:
+                            final['armed'] = False
+                            hop_then_disconnect(int(plan['final_disconnect'].get('hops', 0)))
+                world.net.taps.append(ArrivalTap())
+            server.send_to('alice', M.ConnectToPeer.Response(
+                username='pz', typ='P', ip=ip, port=port, ticket=5999, privileged=False,
+                obfuscated_port_amount=0, obfuscated_port=0))
         await asyncio.sleep(200.0)
         registry_check('after_200s')
 
@@ -600,7 +662,7 @@ def _run(world: World, plan):
         break
     # liveness of the close paths: every episode whose end must close the connection did close it
     for ep in episodes:
-        must_close = ep['end'] not in ('never',) and not (ep['end'] == 'read_timeout' and ep['typ'] == 'F')
+        must_close = ep['end'] not in ('never', 'twin_second_closes') and not (ep['end'] == 'read_timeout' and ep['typ'] == 'F')
         conns = [r for r in mon.values() if r['is_peer'] and facts_of(r).get('kind') == ep['kind']
                  and (getattr(r['conn'], 'username', None) in (ep['peer'], None))]
         for r in conns:
